@@ -7,6 +7,8 @@ import BufrModel.Coder.Walk
 import BufrModel.Gen.PyDescriptors
 import BufrModel.Lemmas.CoderSrc
 import BufrModel.Lemmas.CoderOpSrc
+import BufrModel.Lemmas.CoderElemSrc
+import BufrModel.Props.C14Src
 set_option linter.unusedSimpArgs false
 namespace Bufr
 open PyGen.descriptors
@@ -118,5 +120,45 @@ theorem C01_src_operator_235_exact {D V B : Type} (cb : PyGen.coder.Coder.proces
   rw [hc] at h1
   generalize opdOf id = d at h1 h2 ⊢
   simp [PyGen.coder.Coder.process_operator_descriptor, h1, h2, exc_pure, exc_bind_ok, PyGen.coder.CoderState.cancel_all_back_references]
+
+/-! ### `Coder.process_element_descriptor`: the element step
+
+  Definitions (`Lemmas/CoderElemSrc.lean`): `elemOf d` — the model's `Elem` of the descriptor object as the method sees it
+  (kind from the unit string through `TableDef.kindOfUnit`, tied to the regenerated `UNITS_*` by `C20_src_const_units`);
+  `CbCorrE` — the five callbacks (`process_associated_field`, `process_string`, `process_codeflag`, `process_numeric`,
+  `process_numeric_of_new_refval`) correspond to the model's `associatedField`, `P.string`, `P.codeflag`, `P.numeric`;
+  `LinkClosed A` — the data relation survives a bitmap link added on both sides.  `CoderState.add_bitmap_link` is the
+  generated function (not a callback).  `scale_powered = 1.0 * 10 ** scale` is the exact power of ten `Py.pow10 scale`:
+  the callback receives the power whose exponent the model passes to `P.numeric`; what the float layer does with it
+  stays in the callback (correspondence runs). -/
+
+/-- **The generated `process_element_descriptor` is the model's `elementDescriptor`**, for every element (or marker)
+    descriptor object `d` (any id ≥ 0 with `X` as `descriptors.py` computes it, any unit string, width ≥ 0, scale,
+    reference), every label `dd` under which it is recorded, every Python state / bit operator / model state that
+    correspond, and callbacks that correspond: the associated field is processed under the same condition
+    (`204YYY` in force and class ≠ 31), the class-33 / QA status register makes the same transitions and the bitmap link
+    is added at the same moment (`add_bitmap_link` ↔ `nextBitmapped` + `addLink`), a string gets `new_nbytes` or
+    `nbits // 8` bytes, a code/flag its width, a numeric the effective width `nbits + nbits_offset + nbits_increment`,
+    scale `scale + scale_offset + scale_increment` and reference `refval * refval_factor`, or — exactly when the id is in
+    `new_refvals` — the new reference value times the factor.  Both return in corresponding states or both fail with the
+    same error class; the exceptions this function raises itself are `TypeError` / `StopIteration` of `add_bitmap_link`
+    (model: `other`). -/
+theorem C01_src_process_element_descriptor {D V B : Type} (φ : D → Elem) (A : PyData D V → B → StData → Prop)
+    (hA : LinkClosed A) (cb : PyGen.coder.Coder.process_element_descriptor.Callbacks D V B) (P : Prims) (dd : DDesc)
+    (d : PyGen.coder.ElementDescriptor.Self) (id : Nat) (hid : d.id = id) (hX : d.X = Descriptor.X ⟨id⟩) (hnb : 0 ≤ d.nbits)
+    (hcb : CbCorrE φ A cb P dd d)
+    (ps : PyGen.coder.CoderState.Self D V) (b : B) (s : St) (h : AbsSt φ A ps b s) :
+    Corr φ A (PyGen.coder.Coder.process_element_descriptor cb ps b d) (elementDescriptor P dd (elemOf d) s) := by
+  refine elem_core φ A hA cb P dd d hcb (by omega) ?_ hnb ps b s h
+  rw [hX, hid, C14_src_descriptor_X]; simp
+
+/-- The hypotheses are satisfiable (failing callbacks / primitives; any data relation closed under links). -/
+example : ∃ (cb : PyGen.coder.Coder.process_element_descriptor.Callbacks Nat Nat Nat) (A : PyData Nat Nat → Nat → StData → Prop)
+    (d : PyGen.coder.ElementDescriptor.Self), LinkClosed A ∧ d.id = (12101 : Nat) ∧ d.X = Descriptor.X ⟨(12101 : Nat)⟩ ∧ 0 ≤ d.nbits ∧
+      CbCorrE (fun _ => default) A cb failPrims (.plain (elemOf d)) d :=
+  ⟨⟨fun _ _ _ => .error .typeError, fun _ _ _ _ => .error .typeError, fun _ _ _ _ => .error .typeError,
+      fun _ _ _ _ _ _ => .error .typeError, fun _ _ _ _ _ _ => .error .typeError⟩,
+    fun _ _ _ => True, ⟨12101, Descriptor.X ⟨(12101 : Nat)⟩, "K".toList, 16, 2, 0⟩, fun _ _ _ _ _ => trivial, rfl, rfl, by decide,
+    ⟨fun _ _ _ _ => rfl, fun _ _ _ _ _ => rfl, fun _ _ _ _ _ => rfl, fun _ _ _ _ _ _ _ => rfl, fun _ _ _ _ _ _ _ _ _ => rfl⟩⟩
 
 end Bufr
